@@ -227,7 +227,7 @@ Record rstate := mkrs {
 Definition step (c : cfg) (r : rstate) (o : op) : rstate :=
   match o with
   | OEnq in_cb bs k cbr s =>
-    let p := fresh_pkt (zlen' (r_hist r)) bs k cbr in
+    let p := fresh_pkt (Z.of_nat (length (r_hist r))) bs k cbr in
     let '(st, ev, rc, _) := enqueue c in_cb (r_st r) p s in
     mkrs st (r_trace r ++ ev) (r_hist r ++ [p]) (r_rcs r ++ [rc])
   | OWrite s =>
@@ -240,3 +240,115 @@ Definition init (t0 : T) : rstate := mkrs (mkst [] true false t0) [] [] [].
 Definition run (c : cfg) (t0 : T) (ops : list op) : rstate := fold_left (step c) ops (init t0).
 
 End Generic.
+
+Arguments mkst {T}.
+Arguments outq {T}. Arguments sock {T}. Arguments regw {T}. Arguments tst {T}.
+Arguments mkrs {T}.
+Arguments r_st {T}. Arguments r_trace {T}. Arguments r_hist {T}. Arguments r_rcs {T}.
+Arguments want_write {T}.
+
+(* ---- observations used by the theorems ---- *)
+Fixpoint wire_of (tr : list event) : list Z :=
+  match tr with
+  | [] => []
+  | Wire b :: t => b ++ wire_of t
+  | _ :: t => wire_of t
+  end.
+
+Fixpoint acc_of (tr : list event) : list Z :=
+  match tr with
+  | [] => []
+  | Acc b :: t => b ++ acc_of t
+  | _ :: t => acc_of t
+  end.
+
+(* the not yet accepted suffixes of the queued packets, in queue order *)
+Definition unsent_q (q : list opkt) : list Z := concat (map offered q).
+Definition unsent {T} (st : wstate T) : list Z := unsent_q (outq st).
+
+Fixpoint setpub_ids (tr : list event) : list Z :=
+  match tr with
+  | [] => []
+  | SetPublished i :: t => i :: setpub_ids t
+  | _ :: t => setpub_ids t
+  end.
+
+Fixpoint cbpub_ids (tr : list event) : list Z :=
+  match tr with
+  | [] => []
+  | CbPublish i :: t => i :: cbpub_ids t
+  | _ :: t => cbpub_ids t
+  end.
+
+Definition raw_run (c : cfg) (ops : list op) : rstate unit := run unit raw_send c tt ops.
+
+(* ---- correspondence entry (flat integer lists, see CONVENTIONS.md) ---- *)
+Definition b2z (b : bool) : Z := if b then 1 else 0.
+Definition dec_outcome (z : Z) : outcome :=
+  if 0 <=? z then Accept z else if z =? -1 then Block else if z =? -2 then Fail else FailV.
+Definition dec_kind (z : Z) : pkind := if z =? 0 then KPub0 else if z =? 1 then KDisc else KOther.
+Definition take (n : Z) (l : list Z) : list Z * list Z := (ztake n l, zskip n l).
+
+(* op encoding:  0 in_cb kind cbraise len b1..blen ns o1..ons   |   1 ns o1..ons
+   outcome encoding: k >= 0 Accept k; -1 Block; -2 Fail (OSError); -3 FailV (ValueError) *)
+Fixpoint dec_ops (fuel : nat) (l : list Z) : list op :=
+  match fuel with
+  | O => []
+  | S f =>
+    match l with
+    | 0 :: incb :: k :: cbr :: len :: rest =>
+      let '(bs, r1) := take len rest in
+      match r1 with
+      | ns :: r2 =>
+        let '(sc, r3) := take ns r2 in
+        OEnq (incb =? 1) bs (dec_kind k) (cbr =? 1) (map dec_outcome sc) :: dec_ops f r3
+      | [] => []
+      end
+    | 1 :: ns :: rest =>
+      let '(sc, r3) := take ns rest in
+      OWrite (map dec_outcome sc) :: dec_ops f r3
+    | _ => []
+    end
+  end.
+
+Definition enc_bytes (b : list Z) : list Z := zlen b :: b.
+Definition enc_event (e : event) : list Z :=
+  match e with
+  | Wire b => 1 :: enc_bytes b
+  | Acc b => 2 :: enc_bytes b
+  | CbPublish i => [3; i]
+  | SetPublished i => [4; i]
+  | RegW => [5]
+  | UnregW => [6]
+  | CbDisconnect => [7]
+  | SockClose => [8]
+  end.
+Definition enc_rc (r : rcode) : Z :=
+  match r with RcSuccess => 0 | RcAgain => 1 | RcConnLost => 2 | RcNoConn => 3 | RcRaised => 4 | RcOutOfFuel => 5 end.
+Definition enc_pkt (p : opkt) : list Z := [p_id p; p_pos p; p_top p].
+
+(* per op: its events, then  9 rc sock regw want_write nq (id pos to_process)* <transport state> *)
+Definition enc_state {T} (tenc : T -> list Z) (rc : rcode) (st : wstate T) : list Z :=
+  [9; enc_rc rc; b2z (sock st); b2z (regw st); b2z (want_write st); Z.of_nat (length (outq st))]
+  ++ concat (map enc_pkt (outq st)) ++ tenc (tst st).
+
+Definition last_rc (l : list rcode) : rcode := last l RcSuccess.
+
+Fixpoint run_enc {T} (tsend : T -> list Z -> list outcome -> sendres * T * list Z * list outcome)
+    (tenc : T -> list Z) (c : cfg) (r : rstate T) (ops : list op) : list Z :=
+  match ops with
+  | [] => []
+  | o :: ops' =>
+    let r' := step T tsend c (mkrs (r_st r) [] (r_hist r) []) o in
+    concat (map enc_event (r_trace r')) ++ enc_state tenc (last_rc (r_rcs r')) (r_st r')
+    ++ run_enc tsend tenc c r' ops'
+  end.
+
+(* entry 1: [ext; onpub; suppress; ops...] on the raw socket *)
+Definition entry_raw (args : list Z) : list Z :=
+  match args with
+  | ext :: onp :: sup :: rest =>
+    run_enc raw_send (fun _ => []) (mkcfg (ext =? 1) (onp =? 1) (sup =? 1)) (init unit tt)
+            (dec_ops (length rest) rest)
+  | _ => []
+  end.
